@@ -29,6 +29,10 @@ CHECKS["C16"] = dict(level="translation_validation", design="3/C16", technique="
     text="+ - * / unary, == !=, the four order operators (against the cross-product order corrected for the sign of d1*d2), float conversion, reduce and canonical are shown equal to their rational-arithmetic formulas for all components; the hash function's argument is shown to flow only into canonical().",
     note="Cross products assumed to fit (both sides wrap identically otherwise). Equal fractions => equal canonical forms is the composition of the reduce/canonical facts, not separately proved.")
 
+CHECKS["C06"] = dict(level="other", design="3/C06", technique="abstract interpretation over interval sets of the optimised IR of checked-operation kernels with one operand pinned ('lines'), compared with an exact big-integer overflow oracle; both detection paths",
+    text="For each operator x operand type pair x overflow tag x detection path, one operand is pinned to a boundary constant; LLVM reduces the checked operation to a function of the other operand, whose ite tree partitions that operand's whole range into interval sets; on each part the outcome (plain result / saturation bound / throw or trap with the right polarity) is compared with what an exact oracle demands. A line is decided for all values of the free operand, interior boundary included.",
+    note="Decides exactness along lines (one operand a boundary constant), not for arbitrary operand pairs; lines whose branch conditions the interval domain cannot invert are counted as undecided (floor-guarded). Floating-point sources and 128-bit operands are not covered in the quick tier.")
+
 NOT_APPLICABLE = {
     "C10": "limb-array loops of the vendored uintwide_t have data-dependent control; no static abstraction in reach relates them to arithmetic mod 2^N (DESIGN 3/C10)",
     "C17": "termination/accuracy of the floating-point driven Stern-Brocot loop is a numerical statement with no structural clause (DESIGN 3/C17)",
